@@ -37,7 +37,9 @@ partial def histLoop (h : IO.FS.Stream) (st : St) (cur : String) (lineNo : Nat) 
   else
     let r := stepOp st f
     let cnt := bump cnt (f.headD "?" ++ "/" ++ outcomeClass got)
-    if f.head? == some "file" then
+    if f.head? == some "fhash" && (r.allowed.isEmpty || r.allowed.contains got) then
+      histLoop h { r.st with lastHash := some got } cur (lineNo + 1) (nOps + 1) false nHist nBad cnt
+    else if f.head? == some "file" then
       -- `file => <path>`: decode the real bytes, check well-formedness and accounting, compare contents
       let pagesize := st.pagesize
       let rep ← checkPath got pagesize
